@@ -1,0 +1,152 @@
+//go:build verif
+
+package mvp7_1
+
+import (
+	"github.com/teivah/majorana/proc/comp"
+	"github.com/teivah/majorana/risc"
+)
+
+// Verification hook (add-only, build tag verif): the cache controllers, the
+// MSI directory and the memory of this variant without a pipeline, driven the
+// way CPU.Run drives them, and a snapshot of their state.
+
+// VerifRig is a set of cache controllers sharing one MSI directory.
+type VerifRig struct {
+	ctx *risc.Context
+	mmu *memoryManagementUnit
+	msi *msi
+	ccs []*cacheController
+}
+
+// VerifNewRig builds ctx + mmu + msi + one cache controller per core, exactly
+// as NewCPU does, without fetch/decode/control/execute/write units.
+func VerifNewRig(cores int, memoryBytes int) *VerifRig {
+	ctx := risc.NewContext(false, memoryBytes, true)
+	mmu := newMemoryManagementUnit(ctx)
+	m := newMSI()
+	ccs := make([]*cacheController, 0, cores)
+	for i := 0; i < cores; i++ {
+		ccs = append(ccs, newCacheController(i, ctx, mmu, m))
+	}
+	return &VerifRig{ctx: ctx, mmu: mmu, msi: m, ccs: ccs}
+}
+
+// Memory is the main memory of the rig.
+func (r *VerifRig) Memory() []int8 { return r.ctx.Memory }
+
+// Snoop runs one snoop cycle of every core, in core order (Run does this
+// before the execute units).
+func (r *VerifRig) Snoop() {
+	for _, cc := range r.ccs {
+		cc.snoop.Cycle(struct{}{})
+	}
+}
+
+// ReadCycle is one cycle of an execute unit waiting for a load.
+func (r *VerifRig) ReadCycle(core int, addrs []int32) (bool, []int8) {
+	resp := r.ccs[core].read.Cycle(ccReadReq{0, addrs})
+	return resp.done, resp.data
+}
+
+// WriteCycle is one cycle of an execute unit waiting for a store.
+func (r *VerifRig) WriteCycle(core int, addrs []int32, data []int8) bool {
+	return r.ccs[core].write.Cycle(ccWriteReq{0, addrs, data}).done
+}
+
+// Flush is what executeUnit.flush does to its cache controller.
+func (r *VerifRig) Flush(core int) { r.ccs[core].flush() }
+
+// Idle tells whether every coroutine of the core's controller is at its start.
+func (r *VerifRig) Idle(core int) bool { return r.ccs[core].isEmpty() }
+
+// Export is the end of Run: every controller writes its modified lines back.
+func (r *VerifRig) Export() int {
+	cycles := 0
+	for _, cc := range r.ccs {
+		cycles += cc.export()
+	}
+	return cycles
+}
+
+// Snapshot copies the state of the rig.
+func (r *VerifRig) Snapshot() comp.VerifMsiSnapshot {
+	return verifSnapshot(r.ctx, r.msi, r.ccs)
+}
+
+// VerifSnapshot copies the MSI state of a CPU (for per-cycle observation of
+// full runs through risc.VerifWatch).
+func (m *CPU) VerifSnapshot() comp.VerifMsiSnapshot {
+	return verifSnapshot(m.ctx, m.msi, m.cacheControllers)
+}
+
+func verifSnapshot(ctx *risc.Context, m *msi, ccs []*cacheController) comp.VerifMsiSnapshot {
+	s := comp.VerifMsiSnapshot{Cores: len(ccs), L1LineSize: l1DCacheLineSize}
+	for e, st := range m.states {
+		s.States = append(s.States, comp.VerifMsiState{Core: e.id, Line: int32(e.alignedAddr), State: st})
+	}
+	for a, sem := range m.pendings {
+		rd, wr := comp.VerifSemCounters(sem)
+		s.Sems = append(s.Sems, comp.VerifMsiSem{Line: int32(a), Read: rd, Write: wr})
+	}
+	for req, info := range m.commands {
+		s.Cmds = append(s.Cmds, comp.VerifMsiCmd{Core: req.id, Line: int32(req.alignedAddr), Kind: req.request, Done: info.doneFlag})
+	}
+	for _, cc := range ccs {
+		s.L1 = append(s.L1, comp.VerifCopyLines(cc.l1d))
+		tx := comp.VerifMsiTx{
+			Core:        cc.id,
+			ReadActive:  !cc.read.IsStart(),
+			WriteActive: !cc.write.IsStart(),
+			SnoopBusy:   !cc.snoop.IsStart(),
+		}
+		for a := range cc.rlockSems {
+			tx.ReadLines = append(tx.ReadLines, int32(a))
+		}
+		for a := range cc.lockSems {
+			tx.WriteLines = append(tx.WriteLines, int32(a))
+		}
+		s.Tx = append(s.Tx, tx)
+	}
+	s.VerifFinish(ctx.Memory)
+	return s
+}
+
+// Fingerprint hashes everything Snapshot reports (map entries are combined
+// order-independently); equal state gives an equal fingerprint.
+func (r *VerifRig) Fingerprint() uint64 {
+	return verifFingerprint(r.ctx, r.msi, r.ccs)
+}
+
+// VerifFingerprint is Fingerprint for a CPU.
+func (m *CPU) VerifFingerprint() uint64 {
+	return verifFingerprint(m.ctx, m.msi, m.cacheControllers)
+}
+
+func verifFingerprint(ctx *risc.Context, m *msi, ccs []*cacheController) uint64 {
+	var sum uint64
+	for e, st := range m.states {
+		sum += comp.VerifMix(3, int64(e.id), int64(e.alignedAddr), int64(st))
+	}
+	for a, sem := range m.pendings {
+		rd, wr := comp.VerifSemCounters(sem)
+		sum += comp.VerifMix(5, int64(a), int64(rd), int64(wr))
+	}
+	for req, info := range m.commands {
+		sum += comp.VerifMix(7, int64(req.id), int64(req.alignedAddr), int64(req.request), comp.VerifBool(info.doneFlag))
+	}
+	h := comp.VerifMix(14695981039346656037, int64(sum), int64(len(m.states)), int64(len(m.pendings)), int64(len(m.commands)))
+	for _, cc := range ccs {
+		var ks uint64
+		for a := range cc.rlockSems {
+			ks += comp.VerifMix(17, int64(a))
+		}
+		for a := range cc.lockSems {
+			ks += comp.VerifMix(19, int64(a))
+		}
+		h = comp.VerifMix(h, int64(cc.id), comp.VerifBool(cc.read.IsStart()), comp.VerifBool(cc.write.IsStart()),
+			comp.VerifBool(cc.snoop.IsStart()), int64(ks))
+		h = comp.VerifHashCache(h, cc.l1d)
+	}
+	return comp.VerifHashBytes(h, ctx.Memory)
+}
